@@ -822,23 +822,36 @@ def logAfter (l : Log) (r : Req) : Log :=
 
 /-- the match position an accepted request is acknowledged with. -/
 def matchAfter (l : Log) (r : Req) : Option (Nat × Nat) :=
-  if r.ents.isEmpty then l.lastLogId else (filterAppend l r.prev r.prevTerm r.ents).2.1
+  if r.ents.isEmpty then prevId r else (filterAppend l r.prev r.prevTerm r.ents).2.1
 
-def commitAfter (c : Nat) (l' : Log) (r : Req) : Nat :=
-  match ifUpdateCommit c l'.lastIdx r.commit with | some x => x | none => c
+/-- the follower commit rule since F50: `max(commit, min(leader_commit, prev + len))`. -/
+def commitAfter (c : Nat) (r : Req) : Nat := max c (min r.commit (r.prev + r.ents.length))
+
+theorem commit_rule (c e lc : Nat) :
+    (match (match ifUpdateCommit c e lc with
+        | some x => if c < x then some x else none
+        | none => none) with
+      | some x => x | none => c) = max c (min lc e) := by
+  unfold ifUpdateCommit
+  by_cases h1 : lc > c
+  · by_cases h2 : c < min lc e
+    · simp only [h1, h2, ↓reduceIte]; exact (Nat.max_eq_right (Nat.le_of_lt h2)).symm
+    · simp only [h1, h2, ↓reduceIte]; exact (Nat.max_eq_left (by omega)).symm
+  · simp only [h1, ↓reduceIte]
+    exact (Nat.max_eq_left (Nat.le_trans (Nat.min_le_left _ _) (by omega))).symm
 
 theorem stepReq_accepted {st : FState} {r : Req} (h : Accepts st r) :
     stepReq st r =
-      ({ term := r.term, commit := commitAfter st.commit (logAfter st.log r) r, log := logAfter st.log r },
+      ({ term := r.term, commit := commitAfter st.commit r, log := logAfter st.log r },
        .success st.term (matchAfter st.log r)) := by
   have hchk := (checkLegal_success_iff st.term r st.log).mpr h
   unfold stepReq stepReqT
   have ht : ¬ st.term > r.term := by have := h.1; omega
-  simp only [ht, ↓reduceIte, handleAppend, hchk, logAfter, matchAfter, commitAfter]
+  simp only [ht, ↓reduceIte, handleAppend, hchk, logAfter, matchAfter, commitAfter, gt_iff_lt]
   have hterm : (if st.term < r.term then r.term else st.term) = r.term := by
     have := h.1; split <;> omega
   rw [hterm]
-  by_cases he : r.ents.isEmpty = true <;> simp [he] <;> rfl
+  by_cases he : r.ents.isEmpty = true <;> simp [he] <;> exact commit_rule _ _ _
 
 theorem stepReq_rejected {st : FState} {r : Req} (h : ¬ Accepts st r) :
     (stepReq st r).1.log = st.log ∧ (stepReq st r).1.commit = st.commit := by
